@@ -7,6 +7,7 @@ Oracle leg: the Go port of bash's algorithm vs real bash 5.2 on every word sent 
 Search: Go (SplitBraces + Printer, BracesSeq, expand.Fields with an empty environment) vs bash / the law itself, on
 pinned words, exhaustive short words, structured random words and mutations."""
 import json
+import os
 import re
 
 from vcheck import coq_bytes, coq_list
@@ -150,7 +151,7 @@ def run(ctx):
                                                   coq_word(r["tree"]), coq_exp(r), coq_spec(r),
                                                   "true" if "skippedClose" in (r.get("feat") or "") else "false"))
         text = CASE_HDR + "Definition cases := %s.\nDefinition M := Eval vm_compute in mism 0 cases.\nPrint M.\n" % coq_list(items)
-        ok, out = ctx.coq_cases("c16_%d_%d" % (ctx.seed, sh), text, timeout=1800)
+        ok, out = ctx.coq_cases("c16_%d_%d_%d" % (ctx.seed, os.getpid(), sh), text, timeout=1800)
         m = re.search(r"M\s*=\s*(\[.*?\])\s*:", out, re.S)
         if not ok or not m:
             ctx.broken.append(("correspondence:code-eval", "coqc on generated cases failed: " + out[-800:]))
